@@ -154,13 +154,10 @@ func (ctx *parseContext) expandMacros(node *Node) error {
 	}
 	node.Args = newArgs
 
-	if node.Children != nil {
-		for i := range node.Children {
-			if err := ctx.expandMacros(&node.Children[i]); err != nil {
-				return err
-			}
-		}
-	}
+	// Children are not visited: readNodes expands every node it reads, the
+	// ones inside a block included. Doing it again here for every enclosing
+	// block multiplied the work (and the budget charged) by the depth and
+	// expanded what an expansion resulted in.
 
 	return nil
 }
